@@ -34,7 +34,8 @@ def rules(selfname, fname):
         ('R-dip', r'ptr::drop_in_place\(' + s + r'\.array\.get_unchecked_mut\(([^.()]+(?:\.[a-z_]+)?)\s*\.\.\s*([^()]+?)\)\);',
          selfname + r'.array.drop_range(\1, \2);' + (UNWIND_DIP % (selfname, fname))),
         # drop_in_place over the iterator's own remaining slice (inside Drop: the guard is already being destroyed)
-        ('R-dip', r'ptr::drop_in_place\(' + s + r'\.as_mut_slice\(\)\);', 'let __s = ' + selfname + '.as_mut_slice(); ' + selfname + '.array.drop_range(__s.lo, __s.hi);'),
+        ('R-dip', r'ptr::drop_in_place\(' + s + r'\.as_mut_slice\(\)\);', 'let __s = ' + selfname + '.as_mut_slice(); ' + selfname + '.array.drop_range(__s.lo, __s.hi);'
+         + ('' if fname == 'drop_impl' else (UNWIND_DIP % (selfname, fname)))),
         ('R-view', s + r'\.array\.get_unchecked(?:_mut)?\(([^.()]+(?:\.[a-z_]+)?)\s*\.\.\s*([^()]+?)\)', selfname + r'.array.range(\1, \2)'),
         ('R-forget', r'mem::forget\(' + s + r'\);', selfname + '.array.forget();'),
     ]
@@ -121,16 +122,19 @@ impl<T, N: ArrayLength> GenericArrayIter<T, N> {
            [('releases-all', ['C03', 'C05'], 'final(self).array.ok() && final(self).array.all_dead()'),
             ('exactly-remaining', ['C03'], 'forall|k: int| 0 <= k < N::n() && !(old(self).index <= k < old(self).index_back) ==> (#[trigger] final(self).array.view()[k]) == old(self).array.view()[k]')],
            PROPS)
-    # count(self) / last(mut self): `self` is dropped at scope exit (rule R-drop makes it explicit)
-    method(IT, 'count', 'count', 'fn count(self) -> (r: (usize, Self))', ['self.wf()'],
-           [('count', C6, 'r.0 == self.remaining().len()'), ('dropped', ['C03', 'C05'], 'r.1.array.ok() && r.1.array.all_dead()')],
-           PROPS, selfname='this', pre='let mut this = self; let __ret = { ', post=' }; this.drop_impl(); (__ret, this)')
-    method(IT, 'last', 'last', 'fn last(self) -> (r: (Option<T>, Self))', ['self.wf()'],
-           [('last', C6, 'self.remaining().len() > 0 ==> r.0 == Some(self.remaining().last())'),
-            ('none', C6, 'self.remaining().len() == 0 ==> r.0.is_none()'),
-            ('dropped', ['C03', 'C05'], 'r.1.array.ok() && r.1.array.all_dead()')],
-           PROPS, selfname='this', pre='let mut this = self; let __ret = { ', post=' }; this.drop_impl(); (__ret, this)')
-
+    # count(self) / last(mut self): `self` is dropped at scope exit (rule R-drop makes it explicit) - unless the body itself
+    # ends the iterator's life with mem::forget(self), in which case rule R-forget carries the release obligation
+    for (nm, rtype, posts) in (
+            ('count', 'usize', [('count', C6, '%s == self.remaining().len()')]),
+            ('last', 'Option<T>', [('last', C6, 'self.remaining().len() > 0 ==> %s == Some(self.remaining().last())'), ('none', C6, 'self.remaining().len() == 0 ==> %s.is_none()')])):
+        raw_body = ex.normalize(g.extract_method('src/iter.rs', IT, nm)['body'])
+        if 'mem::forget(self)' in raw_body:
+            method(IT, nm, nm, 'fn %s(self) -> (r: %s)' % (nm, rtype), ['self.wf()'],
+                   [(l, pp, t % 'r') for l, pp, t in posts], PROPS, selfname='this', pre='let mut this = self; ', post='')
+        else:
+            method(IT, nm, nm, 'fn %s(self) -> (r: (%s, Self))' % (nm, rtype), ['self.wf()'],
+                   [(l, pp, t % 'r.0') for l, pp, t in posts] + [('dropped', ['C03', 'C05'], 'r.1.array.ok() && r.1.array.all_dead()')],
+                   PROPS, selfname='this', pre='let mut this = self; let __ret = { ', post=' }; this.drop_impl(); (__ret, this)')
     # ---- fold / rfold: the slice adapter's fold is the loop it is documented to be (rule R-iter), the closure body verbatim ----
     def fold_like(impl, name, back):
         f = g.extract_method('src/iter.rs', impl, name)
